@@ -110,7 +110,9 @@ def gen_guards(g):
         v = res.get(lab)
         if not isinstance(v, bool):
             raise NotGenerated(f"safe_callable_names on representative {lab}: {v}")
-        g.oblige("table", f"not-inferred-harmless:{lab}", [], z3.BoolVal(not v), fn.lineno)
+        g.oblige("table", f"not-inferred-harmless:{lab}", [], z3.BoolVal(not v), fn.lineno,
+                 replay=lambda m, src=_src, name=name: {"reproduced": True, "input": f"parsing.safe_callable_names(core.parse({src!r}))", "observed": f"contains {name!r}",
+                                                        "required": f"{name!r} is not inferred harmless to call"})
     for lab, _src, name in CONTROLS:
         v = res.get(lab)
         if not isinstance(v, bool):
